@@ -109,6 +109,13 @@ def rule_affine(ctx):
         except ValueError as e:
             ctx.ob('C12.affine', f'{A.fq}:form', False, f'not an affine expression: {e}', A.node, mod)
             continue
+        for F_ in (A, B):
+            rets_ = [x for x in walk_local(F_.node) if isinstance(x, ast.Return)]
+            guards_ = [x for x in walk_local(F_.node) if isinstance(x, ast.If)]
+            okg = all(norm(g_.test) == 'not self.running()' and isinstance(g_.body[-1], ast.Raise) for g_ in guards_)
+            ctx.ob('C12.affine', f'{F_.fq}:single-result', len(rets_) == 1 and okg,
+                   f'{F_.name} must be one affine expression for every argument ({len(rets_)} returns, guards {[norm(g_.test) for g_ in guards_]}): a '
+                   f'special case makes the two conversions disagree', F_.node, mod)
         inv = {d: Poly.atom(t).inverse()}
         ab = pa.subst({'x': pb}).subst(inv)
         ba = pb.subst({'x': pa}).subst(inv)
@@ -281,6 +288,8 @@ MUTANTS = [
          old="        ) + self._base_bar_beat + phase", new="        ) + phase"),
     dict(rule='C12.play', name='fast path for the default quant ignores the bar origin', file='sc3/base/clock.py',
          old="        elif quant < 0:\n            raise ValueError(\"quant can't be negative\")", new="        elif quant == 1 and phase == 0:\n            return float(bi.ceil(refbeat))\n        elif quant < 0:\n            raise ValueError(\"quant can't be negative\")"),
+    dict(rule='C12.affine', name='beats2secs special-cases the base beat', file='sc3/base/clock.py',
+         old="        return (beats - self._base_beats) * self._beat_dur + self._base_seconds", new="        if beats <= self._base_beats:\n            return self._base_seconds\n        return (beats - self._base_beats) * self._beat_dur + self._base_seconds"),
 ]
 
 REPAIRS = []
